@@ -106,6 +106,13 @@ func ParseFloat(b []byte) (float64, int) {
 		exp += 290
 	}
 	h := f * math.Pow10(int(exp))
+	if math.IsInf(h, 0) && exp <= 308 {
+		// the rounding errors of f and of the power of ten (a few units in the last place) may lift a value next
+		// to the largest float over the edge
+		if g := 0.25 * f * math.Pow10(int(exp)); math.Abs(g) <= 0.25*math.MaxFloat64*(1.0+1e-15) {
+			return math.Copysign(math.MaxFloat64, h), i
+		}
+	}
 	return h, i
 }
 
